@@ -97,7 +97,7 @@ func parseAppliesOp(op string) []applyV {
 	}
 	for _, t := range semis(f[1]) {
 		p := strings.Split(t, "/")
-		if len(p) != 4 {
+		if len(p) != 4 && len(p) != 5 {
 			return nil
 		}
 		ms, _ := parseMsgs(p[3])
@@ -132,6 +132,7 @@ type syncOracle struct {
 	blPeer   map[string]bool
 	firstAdv map[string]string // snapshot key -> peer whose advertisement created the entry
 	flagged  map[string]bool   // arrivals already reported (index/body/sender)
+	live     bool              // fetcher goroutines deliver: arrivals are not journalled
 }
 
 func (o *syncOracle) advert(peer string, s snapT, res string) []core.Finding {
@@ -239,6 +240,15 @@ func (o *syncOracle) run(out string) []core.Finding {
 				return append(fs, fnd("syncer.applyChunks.apply-without-accepted-offer", "%s (event %d)", ev, n))
 			}
 			idx, body, sender := u32(p[1]), unhx(p[2]), name(p[3])
+			if o.live {
+				// the only possible arrival is the answer of the peer the request went to
+				if !bytes.Equal(body, stdBody(idx)) {
+					fs = append(fs, fnd("syncer.applyChunks.bytes-or-sender-differ-from-arrival", "chunk %d handed to the application as %s, the peers only ever served %s", idx, hx(body), hx(stdBody(idx))))
+				}
+				if _, ok := t.present[idx]; !ok {
+					t.present[idx] = arrival{body, sender}
+				}
+			}
 			fs = append(fs, t.handed("syncer.applyChunks", idx, body, sender)...)
 			if o.blPeer[sender] {
 				prev, was := t.applied[idx]
@@ -279,6 +289,8 @@ func (o *syncOracle) run(out string) []core.Finding {
 				}
 			}
 			lastInfo = ""
+		case "STALL":
+			fs = append(fs, fnd("syncer.fetchChunks.refetch-not-requested-again", "the restore was blocked on chunk %s for more than %v with fetcher goroutines configured: the chunk (discarded for refetching, or never fetched) was %s again", p[1], stallAfter, strings.Join(p[2:], ":")))
 		case "I":
 			lastInfo = ev
 		case "c":
@@ -506,6 +518,9 @@ func oracle(c core.Case, out []string) []core.Finding {
 				}
 			}
 		// syncer stream
+		case "s.live":
+			*so = syncOracle{env: map[uint64]envRow{}, blKey: map[string]bool{}, blFormat: map[uint32]bool{}, blPeer: map[string]bool{},
+				firstAdv: map[string]string{}, flagged: map[string]bool{}, live: true}
 		case "s.new":
 			*so = syncOracle{env: map[uint64]envRow{}, blKey: map[string]bool{}, blFormat: map[uint32]bool{}, blPeer: map[string]bool{},
 				firstAdv: map[string]string{}, flagged: map[string]bool{}}
